@@ -156,6 +156,61 @@ func GenImportSpec(seed int64, idx int, maxBatches int) c14.Spec {
 		Start: s, Len: n, Batch: b, BadIdx: -1}
 }
 
+// HugeImportIdx0 is the case index of the first huge import case (they are
+// numbered apart from the ordinary cases, whose list they leave as it was).
+const HugeImportIdx0 = 1000
+
+// HugeImportMaxHeight is the chain length the huge import cases need.
+func HugeImportMaxHeight() int { return HugeSizes[len(HugeSizes)-1] + 97 + 120 + 4 }
+
+// GenHugeImportSpec derives the i-th HUGE import case (pure function of seed
+// and i): a clean file of several thousand headers imported with the importer's
+// default write batch size (65536, Batch 0) or another batch size of several
+// thousand, so that the importer hands each store ONE WriteHeaders call with
+// thousands of headers (or two). Case 0 is fixed whatever the seed: block
+// store at 6, filter store at 4, file 5..6004, default batch size.
+//
+//	stores      block tip 0 / 1..15 / 16..120, block store ahead of the filter store by 0,0,1,2,5
+//	start       0 / effective tip + 1 / inside the existing content (which agrees)
+//	new heights a size of HugeSizes plus a drawn remainder
+//	batch       default (0), default, 70000, the file length, half the new heights + 1 (two calls per store)
+func GenHugeImportSpec(seed int64, i int) c14.Spec {
+	idx := HugeImportIdx0 + i
+	if i == 0 {
+		return c14.Spec{Idx: idx, Family: "c08-crash-huge-fixed", Preset: 0, BT: 6, FT: 4, StoreFork: -1,
+			Start: 5, Len: 6000, Batch: 0, BadIdx: -1}
+	}
+	r := rand.New(rand.NewSource(seed*1000003 + int64(idx)*7919 + 23))
+	var bt int
+	switch r.Intn(3) {
+	case 0:
+		bt = 0
+	case 1:
+		bt = 1 + r.Intn(15)
+	default:
+		bt = 16 + r.Intn(105)
+	}
+	k := []int{0, 0, 1, 2, 5}[r.Intn(5)]
+	if k > bt {
+		k = bt
+	}
+	ft := bt - k
+	var s int
+	switch r.Intn(3) {
+	case 0:
+		s = 0
+	case 1:
+		s = ft + 1
+	default:
+		s = ft - r.Intn(min(ft, 20)+1)
+	}
+	newCnt := HugeSizes[r.Intn(len(HugeSizes))] + r.Intn(97)
+	n := bt + newCnt - s + 1
+	b := []int{0, 0, 70000, n, newCnt/2 + 1}[r.Intn(5)]
+	return c14.Spec{Idx: idx, Family: "c08-crash-huge", Preset: 0, BT: bt, FT: ft, StoreFork: -1,
+		Start: s, Len: n, Batch: b, BadIdx: -1}
+}
+
 // ImportShape is the normalised shape of an import case (for evidence).
 func ImportShape(sp *c14.Spec) string {
 	start := "inside"
@@ -176,6 +231,10 @@ func ImportShape(sp *c14.Spec) string {
 	}
 	batch := "other"
 	switch {
+	case sp.Batch == 0:
+		batch = "default"
+	case sp.Batch > sp.Len && sp.Len >= 2000:
+		batch = "above-len"
 	case sp.Batch == sp.Len:
 		batch = "len"
 	case sp.Batch == 1, sp.Batch == 2, sp.Batch == 7:
@@ -187,7 +246,11 @@ func ImportShape(sp *c14.Spec) string {
 	if sp.Start+sp.Len-1 == sp.BT {
 		end = "at-block-tip"
 	}
-	return fmt.Sprintf("start:%s store:%s batch:%s end:%s preset:%d", start, store, batch, end, sp.Preset)
+	size := ""
+	if sp.Len >= 2000 {
+		size = " file:thousands-of-headers"
+	}
+	return fmt.Sprintf("start:%s store:%s batch:%s end:%s preset:%d%s", start, store, batch, end, sp.Preset, size)
 }
 
 // ImportPrep is a prepared case: a data directory whose stores are pre-filled
@@ -323,6 +386,7 @@ func (ir *importRunner) step(kind, tag string, n int, after func(m *Model) (*Mod
 	st.After, st.Note = after(ir.model)
 	ir.cur = st
 	ir.r.curOp, ir.r.curOpK = st.Index, st.Op
+	ir.r.opSeq++
 	err := call()
 	ir.r.curOp = -1
 	ir.cur = nil
